@@ -78,6 +78,11 @@ impl Cx {
         }
     }
 
+    /// a secondary context (own tape) for code that is executed identically in two threads
+    pub fn sub(tape: Tape, tier: Tier, render: bool) -> Cx {
+        Cx::new(tape, tier, render)
+    }
+
     /// record an event: always part of the digest, only kept as text when rendering
     pub fn event(&mut self, text: &str) {
         self.digest = hash_bytes(self.digest.rotate_left(5), text.as_bytes());
